@@ -11,7 +11,7 @@ pub fn def() -> PropertyDef {
     PropertyDef {
         id: "C10",
         level: "exploration",
-        scenarios: vec![Box::new(ProgressStub), Box::new(WorkerRxDrop), Box::new(ProgressReal)],
+        scenarios: vec![Box::new(ProgressStub), Box::new(WorkerRxDrop), Box::new(WorkerCrash), Box::new(ProgressReal)],
         assumptions: vec![
             "simulated time is one global clock advanced by per-call costs and sleeps (any monotone clock is a legal clock)",
             "indicatif draws to a hidden target; its internal real clock does not feed back into control flow",
@@ -238,6 +238,137 @@ impl Scenario for ProgressStub {
 }
 
 // ---------------------------------------------------------------------------------------------
+// scenario 2b: fault = a chain worker dies (its chain / target code panics) in transition j
+// ---------------------------------------------------------------------------------------------
+/// "Always terminates": a worker thread that dies at an arbitrary point is the crash fault of this
+/// simulation. The call must still come to an end - by propagating the panic or by returning an
+/// error, that is its choice - instead of waiting for ever for a chain that will never report
+/// again. (What it returns is not judged; only hangs and deadlocks are.)
+struct WorkerCrash;
+
+impl Scenario for WorkerCrash {
+    fn name(&self) -> &'static str {
+        "worker_crash"
+    }
+    fn runs(&self, tier: Tier) -> u64 {
+        tier.pick(1500, 60_000)
+    }
+    fn generate(&self, g: &mut Gen, _tier: Tier, idx: u64) -> Value {
+        let nuts = idx % 6 == 5;
+        let nc = if nuts { g.usize(1, 7) } else { crate::core::size(g, 1, 12, 48) };
+        let n_collect = if nuts { g.usize(4, 8) } else { g.usize(4, 20) };
+        let n_discard = if nuts { g.usize(0, 5) } else { g.usize(0, 12) };
+        let mut sim = gen_sim(g, nc + 2, true);
+        if g.bool(1, 2) {
+            // a clock under which reports fall due during the run
+            sim = with(&sim, "clock", json!({"regime": "fast_clock", "seed": g.u64(), "base_ns": [], "default_ns": g.log_uniform(1e7, 2e9) as u64, "jitter": true, "stall": null}));
+        }
+        json!({"nuts": nuts, "n_chains": nc, "dim": g.usize(1, 3), "n_collect": n_collect, "n_discard": n_discard,
+               "crash_chain": g.usize(0, nc - 1), "crash_frac": fbits(g.f64()), "second_crash": g.bool(1, 5), "inner_points": g.range(0, 2), "seed": g.u64(), "sim": sim})
+    }
+    fn execute(&self, params: &Value, want_sample: bool) -> Outcome {
+        let mut o = Outcome::default();
+        let nuts = pb(params, "nuts");
+        let nc = pus(params, "n_chains");
+        let dim = pus(params, "dim");
+        let (n_collect, n_discard) = (pus(params, "n_collect"), pus(params, "n_discard"));
+        let total = (n_collect + n_discard) as u64;
+        let cc = pus(params, "crash_chain").min(nc - 1);
+        let frac = pf(params, "crash_frac");
+        let second = pb(params, "second_crash");
+        let inner = pu(params, "inner_points") as u32;
+        let seed = pu(params, "seed");
+        let cfg = sim_cfg(&params["sim"]);
+        mcmc_sim::mpsc::reset_ids();
+        let _ = mcmc_sim::sim::take_last_panic();
+        let body = move || -> String {
+            let r = std::panic::catch_unwind(std::panic::AssertUnwindSafe(|| {
+                if nuts {
+                    use crate::gtargets::{GKind, GTarget};
+                    use crate::zoo::BF32;
+                    let mut t = GTarget::new(GKind::Quartic, dim);
+                    // each transition costs a handful of evaluations: somewhere inside the run
+                    t.crash_at = 3 + (frac * (nc as f64) * (total as f64) * 6.0) as u64;
+                    let mut s = mini_mcmc::nuts::NUTS::<f32, BF32, GTarget>::new(t, vec![vec![0.3f32; dim]; nc], 0.8).set_seed(seed);
+                    match s.run_progress(n_collect, n_discard) {
+                        Ok(_) => "ok".to_string(),
+                        Err(e) => format!("err: {e}"),
+                    }
+                } else {
+                    let mut s = CountSampler::<f64>::new(nc, dim);
+                    for c in s.chains.iter_mut() {
+                        c.inner_points = inner;
+                    }
+                    s.chains[cc].panic_at = Some(1 + (frac * total as f64) as u64);
+                    if second && nc > 1 {
+                        s.chains[(cc + 1) % nc].panic_at = Some(1 + ((1.0 - frac) * total as f64) as u64);
+                    }
+                    match s.run_progress(n_collect, n_discard) {
+                        Ok(_) => "ok".to_string(),
+                        Err(e) => format!("err: {e}"),
+                    }
+                }
+            }));
+            // the call has ended one way or the other: the process goes on to exit
+            mcmc_sim::sim::process_exit();
+            match r {
+                Ok(s) => s,
+                Err(_) => "panic propagated".to_string(),
+            }
+        };
+        let (rep, out) = run_sim(&cfg, body);
+        o.sim_time_ns = rep.sim_time_ns;
+        o.work = nc as u64 * total;
+        o.hash = mix(mix(rep.sched_hash, rep.event_hash), str_hash(&params.to_string()));
+        let fired = rep.counters.get("fault_worker_crash_injected").copied().unwrap_or(0);
+        o.nontrivial = fired > 0;
+        o.absorb_counters(&rep.counters);
+        o.count("probe_crash_with_more_chains_than_bars", (fired > 0 && nc > 5) as u64);
+        o.count("probe_crash_in_nuts_worker", (fired > 0 && nuts) as u64);
+        if want_sample {
+            o.sample = Some(report_json(&rep));
+            o.schedule = Some(rep.schedule.clone());
+        }
+        let site = if nuts { "NUTS::run_progress[worker crash]" } else { "ChainRunner::run_progress[worker crash]" };
+        if let Some(f) = &rep.failure {
+            if f.msg.contains("HARNESS-ERROR") {
+                o.harness_error = Some(f.msg.clone());
+                return o;
+            }
+            match f.kind {
+                FailKind::StepBound => o.violate("hang_step_bound", &format!("{site}:hang"), format!("a chain worker died in its transition code and the call never ended ({nc} chains): {}", f.msg)),
+                FailKind::Deadlock => o.violate("deadlock", &format!("{site}:deadlock"), format!("a chain worker died in its transition code and the call deadlocked ({nc} chains): {}", f.msg)),
+                // a panic that ends the simulated execution is the crash propagating: terminated
+                FailKind::Panic => o.count("probe_call_ended_by_propagated_panic", 1),
+            }
+            return o;
+        }
+        match out.as_deref() {
+            Some("ok") if fired > 0 => o.count("probe_call_returned_ok_despite_crash", 1),
+            Some("ok") => o.count("probe_crash_point_not_reached", 1),
+            Some("panic propagated") => o.count("probe_call_ended_by_propagated_panic", 1),
+            Some(_) => o.count("probe_call_returned_err", 1),
+            None => o.harness_error = Some("no value".into()),
+        }
+        o
+    }
+    fn shrink(&self, p: &Value) -> Vec<Value> {
+        let mut out = vec![];
+        shrink_int(p, "n_chains", 1, &mut out);
+        shrink_int(p, "n_collect", 4, &mut out);
+        shrink_int(p, "n_discard", 0, &mut out);
+        shrink_sim(p, &mut out);
+        out
+    }
+    fn rule(&self) -> &'static str {
+        "one run = run_progress of 1..48 counting chains (5 in 6) or of a NUTS sampler with 1..7 chains (1 in 6) in which one worker (1 in 5: two) dies in transition / target evaluation j (j anywhere in the run), under a seeded schedule and clock; the call must end (propagated panic or Err) within the step bound, no deadlock; non-trivial = the crash fired; distinct = hash of (schedule, events, parameters)"
+    }
+    fn components(&self) -> Value {
+        json!({"real": ["ChainRunner::run_progress, run_chain_progress (core.rs)", "NUTS::run_progress, NUTSChain (nuts.rs)", "burn autodiff"], "stub": ["counting chains / quartic target with an injected panic", "threads with std's crash semantics, channels, clock = simulator"]})
+    }
+}
+
+// ---------------------------------------------------------------------------------------------
 // scenario 2: fault = the statistics receiver disappears after j messages (every j)
 // ---------------------------------------------------------------------------------------------
 struct WorkerRxDrop;
@@ -297,7 +428,7 @@ impl Scenario for WorkerRxDrop {
             });
             let w = worker.join();
             let l = listener.join();
-            (w.map_err(|_| "worker panicked".to_string()), l.map_err(|_| "listener panicked".to_string()))
+            (w.map_err(|_| format!("worker panicked: {}", mcmc_sim::sim::take_last_panic().unwrap_or_default())), l.map_err(|_| "listener panicked".to_string()))
         });
         o.sim_time_ns = rep.sim_time_ns;
         o.work = (n_collect + n_discard) as u64;
